@@ -7,23 +7,78 @@
 -/
 import DlmsVerif.Gen.Parsers
 import DlmsVerif.Model.Parsers
+import DlmsVerif.Lemmas.Parsers
 
 namespace Props.C15
-open Dlms Model.Parsers
+open Dlms Model.Parsers Lemmas.Parsers
 
 /-! ### profile-generic buffers -/
+
+private theorem from_nil {period : Int} {clocks : List Bool} {last : Option Stamp} {out : List (List Out)}
+    (h : parseEntriesFrom period clocks [] last = .ok out) : out = [] := by
+  simp only [parseEntriesFrom, Except.ok.injEq] at h
+  exact h.symm
+
+private theorem shape_from {period : Int} {clocks : List Bool} : ∀ (rows : List (List Cell))
+    (last : Option Stamp) (out : List (List Out)),
+    parseEntriesFrom period clocks rows last = .ok out →
+    out.length = rows.length ∧ (∀ r ∈ out, r.length = clocks.length) ∧
+      ∀ r ∈ rows, r.length = clocks.length
+  | [], last, out, h => by
+    rw [from_nil h]; simp
+  | row :: rows, last, out, h => by
+    obtain ⟨hlen, o, l1, outs, hr, hq, rfl⟩ := parseEntriesFrom_cons_ok h
+    obtain ⟨h1, h2, h3⟩ := shape_from rows l1 outs hq
+    have := (parseRow_length hr).1
+    refine ⟨by simp [h1], ?_, ?_⟩
+    · intro r hr'
+      simp only [List.mem_cons] at hr'
+      rcases hr' with rfl | hr'
+      · omega
+      · exact h2 r hr'
+    · intro r hr'
+      simp only [List.mem_cons] at hr'
+      rcases hr' with rfl | hr'
+      · exact hlen
+      · exact h3 r hr'
+
+/-- every parsed row is the result of `parseRow` on the transmitted row (for some running timestamp). -/
+private theorem rows_from {period : Int} {clocks : List Bool} : ∀ (rows : List (List Cell))
+    (last : Option Stamp) (out : List (List Out)),
+    parseEntriesFrom period clocks rows last = .ok out →
+    ∀ (i : Nat) (row : List Cell), rows[i]? = some row →
+      ∃ orow l0 l1, out[i]? = some orow ∧ parseRow period 0 clocks row l0 = .ok (orow, l1)
+  | [], last, out, h => by
+    intro i row hi; simp at hi
+  | row0 :: rows, last, out, h => by
+    obtain ⟨hlen, o, l1, outs, hr, hq, rfl⟩ := parseEntriesFrom_cons_ok h
+    intro i row hi
+    cases i with
+    | zero =>
+      simp only [List.getElem?_cons_zero, Option.some.injEq] at hi
+      subst hi
+      exact ⟨o, last, l1, by simp, hr⟩
+    | succ i =>
+      simp only [List.getElem?_cons_succ] at hi
+      obtain ⟨orow, l0, l1', ho, hp⟩ := rows_from rows l1 outs hq i row hi
+      exact ⟨orow, l0, l1', by simpa using ho, hp⟩
 
 /-- **shape**: one parsed row per transmitted row and one cell per capture object. -/
 theorem C15_shape (period : Int) (clocks : List Bool) (rows : List (List Cell)) (out : List (List Out))
     (h : parseEntries period clocks rows = .ok out) :
     out.length = rows.length ∧ ∀ r ∈ out, r.length = clocks.length := by
-  sorry
+  have := shape_from rows none out h
+  exact ⟨this.1, this.2.1⟩
 
 /-- **width**: a row whose width differs from the capture-object list is refused, wherever it is. -/
 theorem C15_width_refused (period : Int) (clocks : List Bool) (rows : List (List Cell))
     (h : ∃ r ∈ rows, r.length ≠ clocks.length) :
     ∃ e, parseEntries period clocks rows = .error e := by
-  sorry
+  cases hp : parseEntries period clocks rows with
+  | error e => exact ⟨e, rfl⟩
+  | ok out =>
+    obtain ⟨r, hr, hne⟩ := h
+    exact absurd ((shape_from rows none out hp).2.2 r hr) hne
 
 /-- **binding and value**: the cell in column `j` of row `i` is bound to capture object `j`;
     a transmitted (non-null) value is carried unchanged — decoded as a timestamp in a clock
@@ -37,7 +92,11 @@ theorem C15_cells (period : Int) (clocks : List Bool) (rows : List (List Cell)) 
        | .item _ ts, true => ∃ t, ts = some t ∧ o = .bound j (.time t)
        | .null, false => o = .bound j .null
        | .null, true => o = .nothing ∨ ∃ t, o = .bound j (.time t)) := by
-  sorry
+  obtain ⟨orow, l0, l1, ho, hp⟩ := rows_from rows none out h i row hi
+  obtain ⟨o, hoj, hspec⟩ := parseRow_cell hp j cell isClock hj hc
+  refine ⟨orow, o, ho, hoj, ?_⟩
+  rw [Nat.zero_add] at hspec
+  cases cell <;> cases isClock <;> simpa [CellSpec] using hspec
 
 /-- the simple specification of the timestamp column: a transmitted timestamp is itself,
     a null is the previous (transmitted or filled) timestamp plus the capture period, or
@@ -53,6 +112,41 @@ def outStamp : Out → Option Stamp
   | .bound _ (.time t) => some t
   | _ => none
 
+private theorem fillSpec_cons (period : Int) (last x : Option Stamp) (rest : List (Option Stamp)) :
+    fillSpec period last (x :: rest) =
+      fillOne period last x :: fillSpec period (fillOne period last x) rest := by
+  cases x <;> cases last <;> simp [fillSpec, fillOne]
+
+private theorem outStamp_stampOut (idx : Nat) (s : Option Stamp) : outStamp (stampOut idx s) = s := by
+  cases s <;> rfl
+
+private theorem fill_from {period : Int} {clocks : List Bool} {c : Nat}
+    (hc : clocks[c]? = some true) (hone : ∀ j, j ≠ c → clocks[j]? ≠ some true) :
+    ∀ (rows : List (List Cell)) (last : Option Stamp) (out : List (List Out)),
+    parseEntriesFrom period clocks rows last = .ok out →
+    out.map (fun r => (r[c]?).bind outStamp) =
+      fillSpec period last (rows.map fun r => match r[c]? with
+        | some (Cell.item _ ts) => ts
+        | _ => none)
+  | [], last, out, h => by
+    rw [from_nil h]; simp [fillSpec]
+  | row :: rows, last, out, h => by
+    obtain ⟨hlen, o, l1, outs, hr, hq, rfl⟩ := parseEntriesFrom_cons_ok h
+    have hclt : c < clocks.length := by
+      rcases List.getElem?_eq_some_iff.mp hc with ⟨hlt, _⟩
+      exact hlt
+    have hcell : row[c]? = some (row[c]'(by omega)) := List.getElem?_eq_getElem (by omega)
+    obtain ⟨h1, h2⟩ := parseRow_oneclock c _ hr hc hone hcell
+    have ih := fill_from hc hone rows l1 outs hq
+    simp only [List.map_cons, fillSpec_cons]
+    rw [ih, h2, hcell]
+    have e : (match some (row[c]'(by omega)) with
+        | some (Cell.item _ ts) => ts
+        | _ => none) = cellTs (row[c]'(by omega)) := by
+      cases row[c]'(by omega) <;> rfl
+    rw [e, ← h1]
+    simp [outStamp_stampOut]
+
 /-- **fill recurrence**: with the clock in column `c` (and no other clock column), the
     timestamps of the parsed rows are exactly `fillSpec` of the transmitted ones: each null
     becomes the previous row's (transmitted or filled) timestamp plus the capture period,
@@ -64,7 +158,7 @@ theorem C15_fill (period : Int) (clocks : List Bool) (c : Nat) (rows : List (Lis
       fillSpec period none (rows.map fun r => match r[c]? with
         | some (Cell.item _ ts) => ts
         | _ => none) := by
-  sorry
+  exact fill_from hc hone rows none out h
 
 /-! ### association object lists -/
 
@@ -75,7 +169,59 @@ def bitsOf (mode : Nat) : List Nat := (List.range 8).filter fun b => mode.testBi
 theorem C15_rights :
     Gen.Parsers.accessRights = (List.range 256).map bitsOf ∧
     Gen.Parsers.accessRightMembers.map (·.2) = List.range 8 := by
-  sorry
+  decide +kernel
+
+private theorem rights_getD (m : Nat) :
+    Gen.Parsers.accessRights.getD (m % 256) [] = bitsOf (m % 256) := by
+  have hlt : m % 256 < 256 := Nat.mod_lt _ (by omega)
+  rw [C15_rights.1, List.getD_eq_getElem?_getD, List.getElem?_map, List.getElem?_range hlt]
+  rfl
+
+private theorem parseObject_ok {o : ObjIn} {x : ObjOut}
+    (h : parseObject Gen.Parsers.accessRights Gen.Parsers.cosemInterfaces o = .ok x) :
+    x.classId = o.classId ∧ x.version = o.version ∧
+      x.logicalName = o.logicalName.map (·.toNat) ∧
+      ((o.attrs.map (·.attrId)).Nodup →
+        x.attrs = o.attrs.map fun a => (a.attrId, bitsOf (a.mode % 256), a.selectors.getD [])) ∧
+      ((o.methods.map (·.methodId)).Nodup →
+        x.methods = o.methods.map fun m => (m.methodId, bitsOf (m.mode % 256))) := by
+  unfold parseObject at h
+  split at h
+  · cases h
+  · split at h
+    · cases h
+    · simp only [Except.ok.injEq] at h
+      subst h
+      refine ⟨rfl, rfl, rfl, ?_, ?_⟩
+      · intro hnd
+        have := foldl_dictInsert (fun a : AttrRight => a.attrId)
+          (fun a : AttrRight => (Gen.Parsers.accessRights.getD (a.mode % 256) [], a.selectors.getD []))
+          o.attrs [] hnd (by simp)
+        simp only [List.nil_append, rights_getD] at this ⊢
+        exact this
+      · intro hnd
+        have := foldl_dictInsert (fun m : MethodRight => m.methodId)
+          (fun m : MethodRight => Gen.Parsers.accessRights.getD (m.mode % 256) [])
+          o.methods [] hnd (by simp)
+        simp only [List.nil_append, rights_getD] at this ⊢
+        exact this
+
+private theorem parseObjects_cons_ok {rights : List (List Nat)} {ifs : List Nat} {o : ObjIn}
+    {os : List ObjIn} {outs : List ObjOut}
+    (h : parseObjects rights ifs (o :: os) = .ok outs) :
+    ∃ x xs, parseObject rights ifs o = .ok x ∧ parseObjects rights ifs os = .ok xs ∧ outs = x :: xs := by
+  simp only [parseObjects] at h
+  cases hx : parseObject rights ifs o with
+  | error e => rw [hx] at h; cases h
+  | ok x =>
+    rw [hx] at h
+    dsimp only at h
+    cases hxs : parseObjects rights ifs os with
+    | error e => rw [hxs] at h; cases h
+    | ok xs =>
+      rw [hxs] at h
+      simp only [Except.ok.injEq] at h
+      exact ⟨x, xs, rfl, rfl, h.symm⟩
 
 /-- **objects are carried over**: class, version and logical name of every object, and per
     attribute and per method (distinct ids) exactly the rights of its access mode, in order. -/
@@ -89,7 +235,25 @@ theorem C15_objects (objs : List ObjIn) (outs : List ObjOut)
           x.attrs = o.attrs.map fun a => (a.attrId, bitsOf (a.mode % 256), a.selectors.getD [])) ∧
         ((o.methods.map (·.methodId)).Nodup →
           x.methods = o.methods.map fun m => (m.methodId, bitsOf (m.mode % 256))) := by
-  sorry
+  induction objs generalizing outs with
+  | nil =>
+    simp only [parseObjects, Except.ok.injEq] at h
+    subst h
+    simp
+  | cons o0 os ih =>
+    obtain ⟨x, xs, hx, hxs, rfl⟩ := parseObjects_cons_ok h
+    obtain ⟨hl, hall⟩ := ih xs hxs
+    refine ⟨by simp [hl], ?_⟩
+    intro i o hi
+    cases i with
+    | zero =>
+      simp only [List.getElem?_cons_zero, Option.some.injEq] at hi
+      subst hi
+      exact ⟨x, by simp, parseObject_ok hx⟩
+    | succ i =>
+      simp only [List.getElem?_cons_succ] at hi
+      obtain ⟨x', hx', hrest⟩ := hall i o hi
+      exact ⟨x', by simpa using hx', hrest⟩
 
 /-- non-vacuity: a three-row buffer with a compressed (null) timestamp and a null value. -/
 example : parseEntries 15 [true, false]
@@ -97,6 +261,6 @@ example : parseEntries 15 [true, false]
     .ok [[.bound 0 (.time ⟨1000, 0⟩), .bound 1 (.val 2)],
          [.bound 0 (.time ⟨900001000, 0⟩), .bound 1 .null],
          [.bound 0 (.time ⟨1800001000, 0⟩), .bound 1 (.val 3)]] := by
-  sorry
+  decide
 
 end Props.C15
